@@ -119,6 +119,17 @@ theorem multiset_wf (n : Nat) :
    isCertMultisetStabilizing_wf grid_lawful grid_compare_wf,
    isCertMultisetStabilizing_wf (bhrz03_lawful n) (bhrz03N_compare_wf n)⟩
 
+/-- **The order of `BHZ03_widening_assign` is well-founded**: hull certificate through `compare(ph)`,
+    then "singleton below non-singleton", then the multiset through `compare(cert)` — although the two
+    overloads order affine dimension in opposite directions (each is well-founded on its own). -/
+theorem bhz03_order_wf (n : Nat) :
+    WellFounded (Bhz03Less (H79Cert.LessPh n) H79Cert.compare) ∧
+    WellFounded (Bhz03Less (fun new old : GridCert => old.comparePh new = .gt) GridCert.compare) ∧
+    WellFounded (Bhz03Less (fun a b : BHRZ03CertN n => BHRZ03Cert.LessPh n a.1 b.1) BHRZ03CertN.compare) :=
+  ⟨bhz03Less_wf (h79_comparePh_wf n) h79_lawful h79_compare_wf,
+   bhz03Less_wf grid_comparePh_wf grid_lawful grid_compare_wf,
+   bhz03Less_wf (InvImage.wf Subtype.val (bhrz03_comparePh_wf n)) (bhrz03_lawful n) (bhrz03N_compare_wf n)⟩
+
 /-- … and it implies the Dershowitz–Manna order of the multisets of certificates. -/
 theorem multiset_stabilizing_is_dershowitz_manna {α : Type} {cmp : α → α → Ordering}
     (h : LawfulCmp cmp) (X Y : List α) (hs : isCertMultisetStabilizing cmp X Y = true) :
@@ -168,6 +179,22 @@ theorem converges_adversary {D Pt C : Type} (γ : D → Set Pt) (w : D → D →
     (x0 : D) (z : Nat → D → D) (hz : ∀ i x, γ x ⊆ γ (z i x)) :
     ∃ N, ∀ i ≥ N, γ (advSeq w x0 z (i + 1)) = γ (advSeq w x0 z i) :=
   PPLV.Widen.converges_adversary γ w cert r wf hval dec x0 z hz
+
+/-- **The hypothesis `hval` cannot be dropped** (the statement of Appendix B as first written is false):
+    there is a sound operator, decreasing a ℕ-valued certificate at every non-stationary application,
+    and an environment against which the widened sequence never becomes stationary — the operator
+    re-represents a stationary value with a larger certificate.  This is exactly what a certificate that
+    is *not* a function of the point set permits (cf. KF-C08-5). -/
+theorem converges_without_cert_on_values_fails :
+    ¬ (∀ (γ : Nat × Nat → Set Nat) (w : Nat × Nat → Nat × Nat → Nat × Nat) (cert : Nat × Nat → Nat)
+        (x0 : Nat × Nat) (z : Nat → Nat × Nat → Nat × Nat),
+        (∀ x y, γ y ⊆ γ x → γ x ⊆ γ (w x y)) →
+        (∀ x y, γ y ⊆ γ x → γ (w x y) ≠ γ y → cert (w x y) < cert y) →
+        (∀ i x, γ x ⊆ γ (z i x)) →
+        ∃ N, ∀ i ≥ N, γ (advSeq w x0 z (i + 1)) = γ (advSeq w x0 z i)) := by
+  intro h
+  obtain ⟨h1, h2, h3, h4⟩ := converges_needs_hval
+  exact h4 (h cexγ cexW cexCert (0, 1) cexZ h1 h2 h3)
 
 /-- non-vacuity: the hypotheses are jointly satisfiable — the two-point domain `∅ ⊂ univ` with the
     identity widening and the certificate `1, 0`, along the chain `∅, ∅, ∅, univ, univ, …` -/
